@@ -27,10 +27,21 @@ func saslScenario(s *Sim, params map[string]string) {
 	nb := t.Range("cfg", 1, 3)
 	hsCeil := int16(t.Range("cfg", 0, 1))
 	authCeil := int16(t.Range("cfg", 0, 2))
+	// a version table that does not mention the SASL APIs at all (the listener
+	// still insists on a version-0 handshake and raw tokens): a client
+	// configured for SASL authenticates all the same
+	unlisted := t.Intn("unlisted", 8) == 0
+	if unlisted {
+		hsCeil, authCeil = 0, 0
+		s.Count("sasl-apis-missing-from-ApiVersions")
+	}
 	for i := 1; i <= nb; i++ {
 		b := cl.AddBroker(int32(i), "")
 		b.Versions[17] = [2]int16{0, hsCeil}
 		b.Versions[36] = [2]int16{0, authCeil}
+		if unlisted {
+			b.Unlisted = map[int16]bool{17: true, 36: true}
+		}
 	}
 	cl.AddTopic("st", 3, func(int) int32 { return int32(1 + t.Intn("cfg", nb)) })
 
